@@ -24,7 +24,7 @@ import (
 func init() {
 	Registry["C13"] = &Check{
 		Scenarios: c13Scenarios,
-		Rule: "client side: MaxRetransmits R in {0,1,2}, WatchdogInterval 3 s, RetransmitInterval 1 s on the virtual clock; the peer's reaction to the n-th DWR transmission is scripted from {success DWA after 0, 1/2 or 1 interval (1 = exact tie with the retransmission timer), DWA 5012 at once, silence}, scripts with other non-success answers (1001, 3004, a DWA without Result-Code), plus five burst scripts with answers delayed by 3/2 and 5/2 intervals (several late answers landing inside one later waiting window); all scripts of length <=2 (thorough 3), silence afterwards, so every run ends with the watchdog closing the connection; every schedule of watchdog thread, reader, timers and peer up to preemption bound 2 (thorough: unbounded for scripts of length <=1); peer steps and due timers are free transitions, so every ordering of answer / timer / reader is explored already at bound 0. Oracle: the observed (time, hop-by-hop id) sequence of DWRs and the close time must be one of the timelines of a reference model (branching only at exact ties). Redial: the peer of a first connection leaves the first DWR unanswered and disconnects 0 or 1/2 interval later, the application redials at once with the same Client, and the second connection (peer answers two DWRs, then silence) must show the model's timeline measured from its own handshake (R in {0,1}). Two live connections of one Client (dialled one after the other, both peers answer every DWR): neither is closed and each sees one DWR per interval. A client with the watchdog enabled answers a DWR its handshaken peer sends (between rounds and at the instant of its own DWR). Server side: for every DWR from a handshaken peer over {both identity AVPs, Origin-Host missing, Origin-Realm missing, with Origin-State-Id} x ids {0,1,2^31,2^32-1}^2 the state machine must answer a success DWA with the local identity and the request's ids.",
+		Rule: "client side: MaxRetransmits R in {0,1,2}, WatchdogInterval 3 s, RetransmitInterval 1 s on the virtual clock; the peer's reaction to the n-th DWR transmission is scripted from {success DWA after 0, 1/2 or 1 interval (1 = exact tie with the retransmission timer), DWA 5012 at once, silence}, scripts with other non-success answers (1001, 3004, a DWA without Result-Code), plus five burst scripts with answers delayed by 3/2 and 5/2 intervals (several late answers landing inside one later waiting window); all scripts of length <=2 (thorough 3), silence afterwards, so every run ends with the watchdog closing the connection; every schedule of watchdog thread, reader, timers and peer up to preemption bound 2 (thorough: unbounded for scripts of length <=1); peer steps and due timers are free transitions, so every ordering of answer / timer / reader is explored already at bound 0. Oracle: the observed (time, hop-by-hop id) sequence of DWRs and the close time must be one of the timelines of a reference model (branching only at exact ties). Redial: the peer of a first connection leaves the first DWR unanswered and disconnects 0 or 1/2 interval later, the application redials at once with the same Client, and the second connection (peer answers two DWRs, then silence) must show the model's timeline measured from its own handshake (R in {0,1}). Two live connections of one Client (dialled one after the other, both peers answer every DWR): neither is closed and each sees one DWR per interval. A client with the watchdog enabled answers a DWR its handshaken peer sends (between rounds and at the instant of its own DWR). Server side: for every DWR from a handshaken peer over {both identity AVPs, Origin-Host missing, Origin-Realm missing, with Origin-State-Id, Origin-Host in another letter case, another Origin-Host} x ids {0,1,2^31,2^32-1}^2 the state machine must answer a success DWA with the local identity and the request's ids.",
 		Assume: []string{"virtual time: writes and computation take no time", "data-race freedom between visible operations (audited separately with -race)"},
 		QuickBudget: 150, ThoroughBudget: 2400,
 	}
@@ -425,7 +425,9 @@ func c13Fmt(t c13TL) string {
 // c13Server: the state machine as server answers DWRs of a handshaken peer.
 func c13Server(r *SeqResult) {
 	ids := []uint32{0, 1, 0x80000000, 0xffffffff}
-	shapes := []string{"both", "nohost", "norealm", "stateid"}
+	// "case" / "otherid": the DWR names another spelling of the handshake identity (DiameterIdentity
+	// is case-insensitive) / another identity of the same peer - still a well-formed DWR
+	shapes := []string{"both", "nohost", "norealm", "stateid", "case", "otherid"}
 	for _, shape := range shapes {
 		for _, hb := range ids {
 			for _, ee := range ids {
@@ -450,7 +452,13 @@ func c13Server(r *SeqResult) {
 						return
 					}
 					var avps []refcodec.Node
-					if shape != "nohost" {
+					switch shape {
+					case "nohost":
+					case "case":
+						avps = append(avps, ident(264, "CLI"))
+					case "otherid":
+						avps = append(avps, ident(264, "cli-b.example"))
+					default:
 						avps = append(avps, ident(264, "cli"))
 					}
 					if shape != "norealm" {
@@ -460,7 +468,7 @@ func c13Server(r *SeqResult) {
 						avps = append(avps, u32avp(278, 99))
 					}
 					conn.Deliver(refcodec.EncodeMessage(refcodec.Header{Version: 1, Flags: 0x80, Code: 280, HbH: hb, E2E: ee}, avps))
-					if shape == "both" || shape == "stateid" {
+					if shape != "nohost" && shape != "norealm" {
 						dwa = p.Next()
 					}
 					closed = conn.Closed
@@ -471,7 +479,7 @@ func c13Server(r *SeqResult) {
 				if r.Sample == "" {
 					r.Sample = fmt.Sprintf("DWR shape=%s hbh=%#x e2e=%#x -> DWA received: %v", shape, hb, ee, dwa != nil)
 				}
-				if r.Violation != "" || (shape != "both" && shape != "stateid") {
+				if r.Violation != "" || shape == "nohost" || shape == "norealm" {
 					continue
 				}
 				v := ""
